@@ -208,7 +208,8 @@ def real_pathrun(case, lib):
             k = GenericStorage.decode(ex, z)
             chunk = (-1, 1, k.size())
         keep.append(k)
-        decoded[repr(t)] = (z, chunk, None if k is None else key_id(k), 0 if k is None else int(Z.is_bv_value(Z.simplify(k))))
+        decoded[repr(t)] = (z, chunk, None if k is None else key_id(k), 0 if k is None else int(Z.is_bv_value(Z.simplify(k))), k)
+    kterms = [decoded[repr(op[1])][4] for op in case["ops"]]
     n0 = len(reps)
 
     # ---- the oracle: what a complete procedure says about two keys (no path constraint
@@ -229,10 +230,30 @@ def real_pathrun(case, lib):
             return 0
         return 2
 
-    # ---- run
+    # ---- run, recording what Exec.check answers inside Exec.select (under load the solver may
+    # time out: the real oracle is sound but need not be complete, nor constant over time)
+    rec, cur = {}, [None]
+    orig_check = ex.check
+
+    def recording_check(cond):
+        res = orig_check(cond)
+        if cur[0] is not None:
+            neg = Z.is_not(cond) or Z.is_distinct(cond)
+            inner = cond.arg(0) if Z.is_not(cond) else cond
+            if (Z.is_eq(inner) or Z.is_distinct(inner)) and inner.num_args() == 2 and Z.is_bv(inner.arg(1)):
+                k0 = key_id(inner.arg(1))
+                d = rec.setdefault(cur[0], {})
+                if res == Z.unsat:
+                    d[k0] = 0 if neg else 1     # check(key != key0) unsat: MustEq; check(key == key0) unsat: MustNeq
+                else:
+                    d.setdefault(k0, 2)
+        return res
+
+    ex.check = recording_check
     results, loaded = [], []
-    for op in case["ops"]:
-        z, chunk, kid, kv = decoded[repr(op[1])]
+    for t, op in enumerate(case["ops"]):
+        cur[0] = t if op[0] == "load" else None
+        z, chunk, kid, kv, _k = decoded[repr(op[1])]
         if op[0] == "store":
             sevm.sstore(ex, this, BV(z, size=256), BV(op[2], size=256), transient)
         else:
@@ -318,9 +339,22 @@ def real_pathrun(case, lib):
                     spec_fails.append({"env": env, "halmos": got, "flat": expect,
                                        "initial_arrays": "all zero" if not default else f"{hex(default)} wherever the path has no emptiness axiom"})
     nk = len(reps)
-    minp = [0 if case["layout"] == "solidity" else 1, int(bool(case["sym"])), nk] + [orc(i, j) for i in range(nk) for j in range(nk)]
+    ops = case["ops"]
+    dec = [decoded[repr(op[1])] for op in ops]
+
+    def answer(t, s_):
+        """what select was told when the load at op t met the store at op s_"""
+        if not (ops[t][0] == "load" and ops[s_][0] == "store" and s_ < t) or dec[t][2] is None or dec[s_][2] is None:
+            return 2
+        if kterms[t].eq(kterms[s_]):
+            return 0                                     # structural equality: no solver call
+        if dec[s_][2] in rec.get(t, {}):
+            return rec[t][dec[s_][2]]
+        return orc(dec[t][2], dec[s_][2])               # never asked on the real side
+
+    minp = [0 if case["layout"] == "solidity" else 1, int(bool(case["sym"])), len(ops)] + [answer(t, s_) for t in range(len(ops)) for s_ in range(len(ops))]
     for op in case["ops"]:
-        z, chunk, kid, kv = decoded[repr(op[1])]
+        z, chunk, kid, kv, _k = decoded[repr(op[1])]
         minp += [0 if op[0] == "store" else 1, chunk[0], chunk[1], chunk[2], kid or 0, kv] + ([op[2]] if op[0] == "store" else [])
     return {"model_input": minp, "results": results, "path": path, "other_conditions": other, "new_keys_at_runtime": nk - n0,
             "spec_fails": spec_fails}
